@@ -159,6 +159,7 @@ class Flow:
             if truth is not None:
                 out = facts_of(e, truth)
                 out = out + self._joined_bool_facts(n, t, truth)
+                out = out + self._named_bool_facts(n, t, truth)
         elif e[0] == "discr":
             # find variant table from the defining rvalue
             vt = self._variant_table(t.discr)
@@ -188,6 +189,61 @@ class Flow:
                 out = [(("eq", e, ("const", t.dty, v)), False) for v, _ in t.targets]
         self._edge_facts[n] = out
         return out
+
+    def _named_bool_facts(self, n, t, truth):
+        """`let is_complete = self.state() == Complete; if is_complete && ..`: the switch reads a named boolean local that was computed once, in
+        the same block or in a block that falls straight through to the switch (no call, no store in between): the facts of its definition
+        hold on the edge as well."""
+        pl = t.discr.place
+        if pl is None or pl[1]:
+            return []
+        b = self.body
+        l = pl[0]
+        for _ in range(3):   # the switch reads a copy of the named local
+            if l in b.names:
+                break
+            sd = b.single_def(l)
+            if sd is None or sd[1] == "term":
+                return []
+            rv = b.blocks[sd[0]].stmts[sd[1]].rv
+            if rv.k == "use" and rv.ops[0].place is not None and not rv.ops[0].place[1]:
+                l = rv.ops[0].place[0]
+            else:
+                return []
+        if l not in b.names or l <= b.argc:
+            return []
+        ds = [d for d in b.defs().get(l, []) if d[2] in ("whole", "call", "partial")]
+        if len(ds) != 1:
+            return []
+        db, didx, _k = ds[0]
+        # straight line from the definition to the switch
+        cur = db
+        hops = 0
+        first = True
+        while True:
+            blk = b.blocks[cur]
+            stmts = blk.stmts[(didx + 1 if (first and didx != "term") else 0):] if not (first and didx == "term") else []
+            for s_ in stmts:
+                if s_.k != "assign" or s_.lhs[1]:
+                    return []          # a store through a projection may change an operand of the definition
+            if cur == n[1]:
+                break
+            if first and didx == "term":
+                nxt = blk.term.target
+            elif blk.term.k == "goto":
+                nxt = blk.term.target
+            else:
+                return []
+            first = False
+            hops += 1
+            if nxt is None or hops > 4:
+                return []
+            cur = nxt
+        if didx == "term":
+            ex = self.x.call_expr(db, b.blocks[db].term, self.x.depth)
+        else:
+            ex = self.x.rvalue(b.blocks[db].stmts[didx].rv, self.x.depth)
+        return facts_of(ex, truth)
 
     def _joined_bool_facts(self, n, t, truth):
         """`a && b && c` (or a helper returning it, once inlined) is lowered to a local that is set to `false` on every short-circuit path and to the
